@@ -28,8 +28,36 @@ func (w *WaitGroup) Add(d int) { w.s.Add(d) }
 func (w *WaitGroup) Done()     { w.s.Done() }
 func (w *WaitGroup) Wait()     { w.s.Wait() }
 
-// Map, Once, Pool pass through (sequentially consistent objects without blocking).
-type Map = sync.Map
-type Once = sync.Once
+// Map is sync.Map; for the race detector every call on it is ordered with every other call on the same
+// map (one lock per map: more happens-before edges than the real type promises, never fewer).
+type Map struct {
+	m sync.Map
+	o vs.SyncObj
+}
+
+func (m *Map) Load(k any) (any, bool)               { vs.SyncOp(&m.o); return m.m.Load(k) }
+func (m *Map) Store(k, v any)                       { vs.SyncOp(&m.o); m.m.Store(k, v) }
+func (m *Map) LoadOrStore(k, v any) (any, bool)     { vs.SyncOp(&m.o); return m.m.LoadOrStore(k, v) }
+func (m *Map) LoadAndDelete(k any) (any, bool)      { vs.SyncOp(&m.o); return m.m.LoadAndDelete(k) }
+func (m *Map) Delete(k any)                         { vs.SyncOp(&m.o); m.m.Delete(k) }
+func (m *Map) Swap(k, v any) (any, bool)            { vs.SyncOp(&m.o); return m.m.Swap(k, v) }
+func (m *Map) CompareAndSwap(k, o, n any) bool      { vs.SyncOp(&m.o); return m.m.CompareAndSwap(k, o, n) }
+func (m *Map) CompareAndDelete(k, o any) bool       { vs.SyncOp(&m.o); return m.m.CompareAndDelete(k, o) }
+func (m *Map) Range(f func(k, v any) bool) {
+	vs.SyncOp(&m.o)
+	m.m.Range(func(k, v any) bool { r := f(k, v); vs.SyncOp(&m.o); return r })
+}
+
+// Once is sync.Once; the completion of the first Do is ordered before the return of every Do.
+type Once struct {
+	once sync.Once
+	o    vs.SyncObj
+}
+
+func (o *Once) Do(f func()) {
+	o.once.Do(func() { f(); vs.SyncOp(&o.o) })
+	vs.SyncOp(&o.o)
+}
+
 type Pool = sync.Pool
 type Locker = sync.Locker
